@@ -91,7 +91,10 @@ Proof.
   pose proof (fdd_rview _ _ _ _ _ _ H) as V. pose proof (fdd_dl _ _ _ _ _ _ H) as D.
   destruct (fdd_shape _ _ _ _ _ _ H) as (Eg & Ef & Ei).
   pose proof (obs_at_sub _ _ _ A) as OS.
-  destruct HDI as [D1 D2 D3 D4].
+  destruct HDI as [D1 D2 D3 D4 D5 D6 D7].
+  assert (Hid : forall id0 k f i a c o2, In (id0, (k, f, i), a) tr -> slab_get (r_obufs st1) c = Some o2 -> o_link o2 = k -> id0 = c).
+  { intros id0 k f i a c o2 Hin Ho2 Hk. destruct (OS _ _ Ho2) as (o0 & Ho0 & Hs). apply ostep_link in Hs as [Hs _].
+    eapply D5; [exact Hin|exact Ho0|congruence]. }
   (* the part of [di_cur] for everything that is not the continuation request *)
   assert (Hold : forall c o2 r, slab_get (r_obufs st1) c = Some o2 ->
             Held st1 c r \/ In (c, r) e ->
@@ -112,6 +115,14 @@ Proof.
       destruct (Hold _ _ _ Ho2 Hh') as (o0 & Ho0 & Hlk & Hhe).
       assert (Hk : key_of o2 r = key_of o0 r) by (unfold key_of; now rewrite Hlk). rewrite Hk in Hl.
       eapply D4; [exact Ho0| |exact Hg|exact Hl]. destruct Hhe as [X | X]; [now left|right; now right].
+    + exact Hid.
+    + intros c o2 r Ho2 Hh Hg.
+      assert (Hh' : Held st1 c r \/ In (c, r) e).
+      { destruct Hh as [Hh | [E1 | Hh]]; auto. inversion E1; subst c r. congruence. }
+      destruct (Hold _ _ _ Ho2 Hh') as (o0 & Ho0 & Hlk & Hhe).
+      assert (Hk : key_of o2 r = key_of o0 r) by (unfold key_of; now rewrite Hlk). rewrite Hk.
+      eapply D6; [exact Ho0| |exact Hg]. destruct Hhe as [X | X]; [now left|right; now right].
+    + exact D7.
   - (* not shared: [sweep_exact] *)
     destruct Hrq as [(d & Hd & Hiss & Hend) _]. pose proof HI as [LI _].
     destruct (li_wf _ LI _ _ Hd) as [all W]. pose proof (wf_end_of pubdata_size _ _ W) as Hall.
@@ -145,10 +156,11 @@ Proof.
       destruct cs; try exact X. contradiction. }
     rewrite Eghost.
     (* the chain of the key *)
-    assert (Hcur : forall a, last_opt (ktrace K tr) = Some a ->
-              snd (dr_cursor rq) = nxt a /\ (stale (d_log d) (dr_cursor rq) = true -> snd (dr_cursor rq) <= base_of (d_log d))).
-    { intros a Ha. destruct (D4 id o rq a Ho (or_intror (or_introl eq_refl)) Eg0 Ha) as [C1 C2].
+    assert (Hcur : forall a, last_opt (ktrace K tr) = Some a -> a = KRes \/
+              (snd (dr_cursor rq) = nxt a /\ (stale (d_log d) (dr_cursor rq) = true -> snd (dr_cursor rq) <= base_of (d_log d)))).
+    { intros a Ha. destruct (D4 id o rq a Ho (or_intror (or_introl eq_refl)) Eg0 Ha) as [Hres | [C1 C2]]; [now left|right].
       split; [exact C1|]. intros Hs. now apply (C2 d Hd). }
+    assert (HneK : ktrace K tr <> []) by (apply (D6 id o rq Ho (or_intror (or_introl eq_refl)) Eg0)).
     assert (Hp : p = if stale (d_log d) (dr_cursor rq) then base_of (d_log d) else snd (dr_cursor rq)) by reflexivity.
     destruct (sweep_chain (ktrace K tr) _ _ p _ fw (D3 K) Hcur Hp Hseq) as [Hch Hlast]. fold evK in Hch, Hlast.
     assert (Hbound : p + lenN es <= lenN all).
@@ -175,7 +187,7 @@ Proof.
           inversion E1; subst c r. destruct (OS _ _ Ho2) as (o0 & Ho0 & Hs). apply ostep_link in Hs as [Hs _].
           rewrite Ho in Ho0. inversion Ho0; subst o0.
           assert (Hk : key_of o2 rq' = K) by (unfold key_of, K; now rewrite Hs, Ef, Ei).
-          rewrite Hk, ktrace_all_same in Hl. specialize (Hlast _ Hl). split; [lia|].
+          rewrite Hk, ktrace_all_same in Hl. destruct (Hlast _ Hl) as [Hres | Hnx]; [now left|right]. split; [lia|].
           intros d0 Hd0 Hs0. rewrite Ei, Hd in Hd0. inversion Hd0; subst d0. congruence. }
       all: assert (Hh' : Held st1 c r \/ In (c, r) e) by auto;
            destruct (Hold _ _ _ Ho2 Hh') as (o0 & Ho0 & Hlk & Hhe);
@@ -186,4 +198,214 @@ Proof.
              eapply cnt_unique; eassumption
             |rewrite ktrace_all_other, app_nil_r in Hl by exact Hne;
              eapply D4; [exact Ho0| |exact Hg|exact Hl]; destruct Hhe as [X | X]; [now left|right; now right]]).
+    + intros id0 k f i a c o2 Hin Ho2 Hk. apply in_app_or in Hin as [Hin | Hin]; [eapply Hid; eassumption|].
+      apply in_map_iff in Hin as (a0 & E0 & _). inversion E0; subst.
+      destruct (OS _ _ Ho2) as (o0 & Ho0 & Hs). apply ostep_link in Hs as [Hs _].
+      symmetry. eapply (proj2 HL); [exact Ho0|exact Ho|congruence].
+    + intros c o2 r Ho2 Hh Hg. rewrite ktrace_app.
+      destruct Hh as [Hh | [E1 | Hh]].
+      2:{ inversion E1; subst c r. destruct (OS _ _ Ho2) as (o0 & Ho0 & Hs). apply ostep_link in Hs as [Hs _].
+          rewrite Ho in Ho0. inversion Ho0; subst o0.
+          assert (Hk : key_of o2 rq' = K) by (unfold key_of, K; now rewrite Hs, Ef, Ei).
+          rewrite Hk. intros X. apply app_eq_nil in X as [X _]. contradiction. }
+      all: assert (Hh' : Held st1 c r \/ In (c, r) e) by auto;
+           destruct (Hold _ _ _ Ho2 Hh') as (o0 & Ho0 & Hlk & Hhe);
+           assert (Hk : key_of o2 r = key_of o0 r) by (unfold key_of; now rewrite Hlk); rewrite Hk;
+           intros X; apply app_eq_nil in X as [X _]; revert X;
+           eapply D6; [exact Ho0| |exact Hg]; destruct Hhe as [Y | Y]; [now left|right; now right].
+    + intros K' a l E. rewrite ktrace_app in E. destruct (dkey_dec K' K) as [-> | Hne'].
+      * destruct (head_app _ _ _ _ HneK E) as (t' & Et). eapply D7; exact Et.
+      * rewrite ktrace_all_other, app_nil_r in E by exact Hne'. eapply D7; exact E.
+Qed.
+
+(* ------------------------------------------------------------------ the consume loop *)
+(** at most one request per filter among everything connection [id] holds and the locals [l] *)
+Definition UQl (st : rstate) (id : N) (l : list drequest) : Prop :=
+  forall f, (cnt f (treqs st id) + cnti f id (items_of st) + cntw f id (r_notif st) + cnt f l <= 1)%nat.
+
+Lemma uql_cnt st id l : UQl st id l -> forall f, (CNT st (map (pair id) l) id f <= 1)%nat.
+Proof. intros H f. unfold CNT. rewrite cntw_pairs, N.eqb_refl. apply H. Qed.
+
+Lemma uql_view st st' id l : rview st' = rview st -> UQl st id l -> UQl st' id l.
+Proof.
+  unfold rview. intros E H f. inversion E as [[E1 E2 E3]]. unfold treqs, items_of. rewrite E1, E2, E3. apply H.
+Qed.
+
+Lemma uql_perm st id l l' : (forall f, cnt f l' = cnt f l) -> UQl st id l -> UQl st id l'.
+Proof. intros E H f. rewrite E. apply H. Qed.
+
+Lemma di_locals st e e' tr : incl e' e -> DI st e tr -> DI st e' tr.
+Proof. intros Hi. apply di_frame_same; try reflexivity. now apply hsub_local. Qed.
+
+Lemma park_uql st id rq st' l : park st id rq = Ok st' -> UQl st id (rq :: l) -> UQl st' id l.
+Proof.
+  unfold park. intros H HU f. apply bind_ok in H as (d & Hd & H). apply native_get_Some in Hd. inv_ok.
+  specialize (HU f). rewrite cnt_cons in HU.
+  assert (Hn : nthN (items_of st) (dr_idx rq) = Some (Some d)).
+  { unfold items_of. unfold slab_get in Hd. destruct (nthN (sl_items (dl_native (r_datalog st))) (dr_idx rq)) as [[d0|]|]; congruence. }
+  pose proof (cnti_setN f id _ _ _ (set_d_waiters d (d_waiters d ++ [(id, rq)])) Hn) as Hc.
+  cbn [d_waiters set_d_waiters] in Hc. rewrite cntw_app, cntw_single, N.eqb_refl in Hc. cbn [andb] in Hc.
+  unfold treqs, items_of in *. cbn [r_trackers r_datalog set_r_datalog set_dl_native dl_native slab_put sl_items r_notif] in *.
+  lia.
+Qed.
+
+Lemma map_pair_incl (id : N) (l l' : list drequest) : incl l' l -> incl (map (pair id) l') (map (pair id) l).
+Proof. intros H x Hx. apply in_map_iff in Hx as (r & <- & Hr). apply in_map. now apply H. Qed.
+
+Lemma localsok_pairs dl (id : N) l : Forall (RqOk dl) l -> LocalsOk dl (map (pair id) l).
+Proof. intros H. unfold LocalsOk. rewrite Forall_map. exact H. Qed.
+
+Lemma consume_loop_di id : forall fuel st requests skipped st' evs tr,
+  CInv st -> Bounded st -> LinkInv st ->
+  Forall (RqOk (r_datalog st)) requests -> Forall (RqOk (r_datalog st)) skipped ->
+  UQl st id (requests ++ skipped) ->
+  DI st (map (pair id) (requests ++ skipped)) tr ->
+  consume_loop_d fuel st id requests skipped = Ok (st', evs) ->
+  DI st' [] (tr ++ evs).
+Proof.
+  induction fuel as [|fuel IH]; cbn [consume_loop_d]; intros st requests skipped st' evs tr HI HB HL Hr Hs HU HDI H.
+  - apply bind_ok in H as (s & H1 & H). inv_ok. rewrite app_nil_r.
+    pose proof (trackv_keep _ _ _ _ H1) as K.
+    eapply di_frame_same; [| | | |exact HDI].
+    + rewrite <- (app_nil_r (map (pair id) (requests ++ skipped))). eapply trackv_hsub; exact H1.
+    + now apply keep_obufs. + eapply trackv_dl; exact H1. + now apply keep_links.
+  - destruct requests as [|rq rest].
+    + apply bind_ok in H as (st1 & H1 & H). apply bind_ok in H as (s & H2 & H). inv_ok. rewrite app_nil_r.
+      cbn [app] in HDI.
+      assert (X : DI st1 (map (pair id) skipped) tr).
+      { destruct skipped; [|now inv_ok]. pose proof (pause_keep _ _ _ _ H1) as K.
+        eapply di_frame_same; [eapply pause_hsub; exact H1|now apply keep_obufs|eapply pause_dl; exact H1|now apply keep_links|exact HDI]. }
+      pose proof (trackv_keep _ _ _ _ H2) as K.
+      eapply di_frame_same; [| | | |exact X].
+      * rewrite <- (app_nil_r (map (pair id) skipped)). eapply trackv_hsub; exact H2.
+      * now apply keep_obufs. * eapply trackv_dl; exact H2. * now apply keep_links.
+    + inversion Hr as [|? ? Hrq Hrest]; subst.
+      apply bind_ok in H as ([[st1 rq'] status] & H1 & H).
+      destruct (fdd_cinv _ _ _ _ _ _ HI HB Hrq H1) as (HI1 & Hrq' & D1).
+      assert (HB1 : Bounded st1) by (eapply bounded_eq; eassumption).
+      destruct (fdd_cons_delta _ _ _ _ _ _ H1) as (A1 & _ & EL1 & _ & _).
+      assert (HL1 : LinkInv st1) by (apply (obs_sub_LinkInv st st1); [eapply obs_at_sub; exact A1|lia|exact HL]).
+      pose proof (fdd_rview _ _ _ _ _ _ H1) as V1. destruct (fdd_shape _ _ _ _ _ _ H1) as (_ & Ef & _).
+      set (e := map (pair id) (rest ++ skipped)).
+      assert (HDI1 : DI st1 ((id, rq') :: e) (tr ++ fdd_ghost st id rq st1 status)).
+      { eapply fdd_di; try eassumption.
+        - apply localsok_pairs. apply Forall_app. auto.
+        - exact (uql_cnt _ _ _ HU). }
+      assert (HU1 : UQl st1 id (rq' :: rest ++ skipped)).
+      { eapply uql_view; [exact V1|]. eapply uql_perm; [|exact HU]. intros f. cbn [app]. rewrite !cnt_cons.
+        unfold fmatch. now rewrite Ef. }
+      rewrite <- D1 in Hrest, Hs.
+      assert (Hcnt1 : forall f l1 l2, cnt f ((l1 ++ [rq']) ++ l2) = cnt f (rq' :: l1 ++ l2)).
+      { intros f l1 l2. rewrite !cnt_app, !cnt_cons, cnt_app, cnt_nil. lia. }
+      assert (Hcnt2 : forall f l1 l2, cnt f (l1 ++ l2 ++ [rq']) = cnt f (rq' :: l1 ++ l2)).
+      { intros f l1 l2. rewrite !cnt_app, !cnt_cons, cnt_app, cnt_nil. lia. }
+      assert (Hinc1 : forall l1 l2, incl (map (pair id) ((l1 ++ [rq']) ++ l2)) ((id, rq') :: map (pair id) (l1 ++ l2))).
+      { intros l1 l2 x Hx. apply in_map_iff in Hx as (r & <- & Hr'). apply in_app_or in Hr' as [Hr' | Hr'].
+        - apply in_app_or in Hr' as [Hr' | [<- | []]]; [right; apply in_map; apply in_or_app; now left|now left].
+        - right. apply in_map. apply in_or_app. now right. }
+      assert (Hinc2 : forall l1 l2, incl (map (pair id) (l1 ++ l2 ++ [rq'])) ((id, rq') :: map (pair id) (l1 ++ l2))).
+      { intros l1 l2 x Hx. apply in_map_iff in Hx as (r & <- & Hr'). apply in_app_or in Hr' as [Hr' | Hr'].
+        - right. apply in_map. apply in_or_app. now left.
+        - apply in_app_or in Hr' as [Hr' | [<- | []]]; [right; apply in_map; apply in_or_app; now right|now left]. }
+      assert (Hfin : forall st2 s, pause st1 id (match status with BufferFull => Busy | _ => InflightFull end) = Ok st2 ->
+                trackv st2 id ((rest ++ [rq']) ++ skipped) = Ok s ->
+                DI s [] (tr ++ fdd_ghost st id rq st1 status)).
+      { intros st2 s H2 H3. pose proof (pause_keep _ _ _ _ H2) as K2. pose proof (trackv_keep _ _ _ _ H3) as K3.
+        eapply (di_frame_same st1); [| | | |exact HDI1].
+        - eapply hsub_trans; [eapply pause_hsub; exact H2|].
+          eapply hsub_trans; [apply hsub_local; apply (Hinc1 rest skipped)|].
+          rewrite <- (app_nil_r (map (pair id) ((rest ++ [rq']) ++ skipped))). eapply trackv_hsub; exact H3.
+        - rewrite (keep_obufs _ _ K3). now apply keep_obufs.
+        - rewrite (trackv_dl _ _ _ _ H3). eapply pause_dl; exact H2.
+        - rewrite (keep_links _ _ K3). now apply keep_links. }
+      destruct status.
+      * apply bind_ok in H as (st2 & H2 & H). apply bind_ok in H as (s & H3 & H). inv_ok. eapply Hfin; eassumption.
+      * apply bind_ok in H as (st2 & H2 & H). apply bind_ok in H as (s & H3 & H). inv_ok. eapply Hfin; eassumption.
+      * apply bind_ok in H as (st2 & H2 & H). apply bind_ok in H as ([s evs2] & H3 & H). inv_ok.
+        pose proof (park_same _ _ _ _ H2) as S2. pose proof (park_cinv _ _ _ _ HI1 Hrq' H2) as HI2.
+        pose proof (park_keep _ _ _ _ H2) as K2.
+        assert (Hmono : forall l, Forall (RqOk (r_datalog st1)) l -> Forall (RqOk (r_datalog st2)) l).
+        { intros l. apply rqsok_mono; [exact (proj1 HI1)|now apply dl_le_same_logs]. }
+        rewrite app_assoc. eapply IH; [exact HI2|exact (bounded_same _ _ S2 HB1)| | | | | |exact H3].
+        -- apply (obs_sub_LinkInv st1 st2); [apply obs_sub_eq; now apply keep_obufs|rewrite (keep_links _ _ K2); lia|exact HL1].
+        -- now apply Hmono. -- now apply Hmono.
+        -- eapply park_uql; eassumption.
+        -- apply (di_frame st1 st2 ((id, rq') :: e) e); [exact HI1| |eapply park_hsub; exact H2|apply obs_sub_eq; now apply keep_obufs
+                             |now apply dl_le_same_logs|rewrite (keep_links _ _ K2); lia|exact HDI1].
+           constructor; [exact Hrq'|]. apply localsok_pairs. apply Forall_app. auto.
+      * apply bind_ok in H as ([s evs2] & H3 & H). inv_ok.
+        rewrite app_assoc. eapply IH; [exact HI1|exact HB1|exact HL1| |exact Hs| | |exact H3].
+        -- apply Forall_app. split; [exact Hrest|]. constructor; [exact Hrq'|constructor].
+        -- eapply uql_perm; [|exact HU1]. intros f. apply Hcnt1.
+        -- eapply di_locals; [|exact HDI1]. apply Hinc1.
+      * apply bind_ok in H as ([s evs2] & H3 & H). inv_ok.
+        rewrite app_assoc. eapply IH; [exact HI1|exact HB1|exact HL1|exact Hrest| | | |exact H3].
+        -- apply Forall_app. split; [exact Hs|]. constructor; [exact Hrq'|constructor].
+        -- eapply uql_perm; [|exact HU1]. intros f. apply Hcnt2.
+        -- eapply di_locals; [|exact HDI1]. apply Hinc2.
+Qed.
+
+(* ------------------------------------------------------------------ consume *)
+Lemma ack_device_data_fields st id o st' :
+  ack_device_data st id o = Ok st' ->
+  r_conns st' = r_conns st /\ r_obufs st' = r_obufs st /\ r_datalog st' = r_datalog st /\
+  lenN (r_links st') = lenN (r_links st).
+Proof.
+  unfold ack_device_data, get_acks. intros H. apply bind_ok in H as (l & _ & H).
+  destruct (a_committed l); [inv_ok; auto|]. apply bind_ok in H as ([st2 n] & H2 & H). inv_ok.
+  pose proof (push_out_nlinks _ _ _ _ _ H2) as EL. apply push_out_fields in H2. rewrite H2 in *. rsimpl. auto.
+Qed.
+
+Lemma consume_di st st' b evs tr :
+  CInv st -> Bounded st -> LinkInv st -> ExactLoc1.DevEI st -> DI st [] tr ->
+  consume_d st = Ok (st', b, evs) -> DI st' [] (tr ++ evs).
+Proof.
+  intros HI HB HL HD HDI H. unfold consume_d in H.
+  destruct (r_ready st) as [|id rq]; [inv_ok; now rewrite app_nil_r|]. cbv zeta in H.
+  cbn [r_trackers set_r_ready] in H.
+  destruct (slab_get (r_trackers st) id) as [t|] eqn:Et.
+  2:{ inv_ok. rewrite app_nil_r. apply (di_frame_same st _ [] [] tr); [apply hsub_view; reflexivity|reflexivity|reflexivity|reflexivity|exact HDI]. }
+  match type of H with context [slab_get (r_obufs ?s) id] => set (st2 := s) in * end.
+  assert (HS2 : hsub st st2 [] (map (pair id) (tr_reqs t) ++ [])).
+  { unfold st2. eapply hsub_trans; [apply (hsub_view st (set_r_ready st rq)); reflexivity|].
+    eapply hsub_trans; [apply (take_tracker_hsub (set_r_ready st rq) id t []); exact Et|].
+    apply hsub_view. reflexivity. }
+  assert (HDI2 : DI st2 (map (pair id) (tr_reqs t)) tr).
+  { rewrite <- (app_nil_r (map (pair id) (tr_reqs t))).
+    apply (di_frame_same st st2 [] _ tr); [exact HS2|reflexivity|reflexivity|reflexivity|exact HDI]. }
+  assert (HI2 : CInv st2).
+  { unfold st2. apply (cinv_view (put_tracker (set_r_ready st rq) id (set_tr_reqs t []))); [reflexivity|].
+    apply (cinv_put_tracker (set_r_ready st rq)).
+    - eapply cinv_view; [|exact HI]. reflexivity.
+    - constructor. }
+  destruct (slab_get (r_obufs st2) id) as [o|] eqn:Eo.
+  2:{ inv_ok. rewrite app_nil_r. eapply di_locals; [|exact HDI2]. intros x []. }
+  apply bind_ok in H as (st3 & H3 & H). apply bind_ok in H as (u & Hu & H).
+  apply bind_ok in H as ([st4 evs4] & H4 & H). inv_ok.
+  destruct (ack_device_data_fields _ _ _ _ H3) as (EC3 & EO3 & ED3 & EL3).
+  pose proof (ack_device_data_rview _ _ _ _ H3) as V3.
+  pose proof (ack_device_data_cview _ _ _ _ H3) as CV3.
+  assert (HI3 : CInv st3) by (eapply cinv_view; eassumption).
+  assert (HB3 : Bounded st3) by (eapply bounded_eq; [|exact HB]; rewrite ED3; reflexivity).
+  assert (HL3 : LinkInv st3).
+  { apply (obs_sub_LinkInv st st3); [apply obs_sub_eq; rewrite EO3; reflexivity|rewrite EL3; unfold st2; rsimpl; lia|exact HL]. }
+  assert (HR : Forall (RqOk (r_datalog st3)) (tr_reqs t)).
+  { rewrite ED3. change (r_datalog st2) with (r_datalog st). eapply cinv_trk; eassumption. }
+  assert (HDI3 : DI st3 (map (pair id) (tr_reqs t ++ [])) tr).
+  { rewrite app_nil_r. apply (di_frame st2 st3 (map (pair id) (tr_reqs t)) (map (pair id) (tr_reqs t))); try assumption.
+    - apply localsok_pairs. change (r_datalog st2) with (r_datalog st). eapply cinv_trk; eassumption.
+    - apply hsub_view. exact V3.
+    - apply obs_sub_eq. exact EO3.
+    - rewrite ED3. apply dl_le_refl.
+    - lia. }
+  assert (HU3 : UQl st3 id (tr_reqs t ++ [])).
+  { rewrite app_nil_r. eapply uql_view; [exact V3|].
+    destruct (slab_get (r_conns st3) id) as [c|] eqn:Ec; [|discriminate].
+    rewrite EC3 in Ec. change (r_conns st2) with (r_conns st) in Ec.
+    intros f. pose proof (ExactLoc1.de_live _ _ HD _ _ (subs_of_some _ _ _ Ec) f) as Hok. unfold ExactLoc1.okE in Hok.
+    assert (Ht2 : treqs st2 id = []).
+    { unfold treqs, st2. rsimpl. now rewrite (slab_get_put_occ _ _ _ _ Et). }
+    rewrite Ht2, cnt_nil. change (items_of st2) with (items_of st). change (r_notif st2) with (r_notif st).
+    unfold CNT, treqs in Hok. rewrite Et, cntw_nil in Hok. destruct (set_mem str_eqb f (c_subs c)); lia. }
+  eapply consume_loop_di; [exact HI3|exact HB3|exact HL3|exact HR|constructor|exact HU3|exact HDI3|exact H4].
 Qed.
